@@ -325,6 +325,39 @@ def comment_every_line(lines, tag="c"):
     return out
 
 
+def detached_comment_blocks(lines, seed):
+    """comment blocks that are NOT documentation: one to three blocks, each followed by an empty line, above some nodes (above the
+    documentation comment of the node when it has one), and comments at the end of some lines. Documentation is only the run of
+    comment lines directly above a node."""
+    import random as _random
+    rng = _random.Random(seed)
+    out, i = [], 0
+    notes = ["-------- section --------", "TODO: revisit", "NOTE: keep in sync with the firmware", "(was an int before v2)", "licence: MIT"]
+    while i < len(lines):
+        j = i
+        while j < len(lines) and lines[j].lstrip().startswith("#"):
+            j += 1            # lines[i:j] is the documentation of the node at lines[j]
+        if j < len(lines):
+            ind = len(lines[j]) - len(lines[j].lstrip())
+            if rng.random() < 0.45 and not lines[j].lstrip().startswith("- "):
+                for _ in range(rng.choice([1, 2, 2, 3])):
+                    for _ in range(rng.choice([1, 1, 2])):
+                        out.append(" " * ind + "# " + rng.choice(notes))
+                    out.append("")
+            out += lines[i:j]
+            ln = lines[j]
+            if rng.random() < 0.2 and ln.rstrip().endswith(":"):
+                ln = ln + "   # " + rng.choice(notes)
+            out.append(ln)
+            if rng.random() < 0.1:
+                out.append("")
+            i = j + 1
+        else:
+            out += lines[i:j]
+            i = j
+    return out
+
+
 def package_files(pkg, rng=None, expanded_p=0.25):
     """-> {filename: text} for the model files of one package (no _package.yml)."""
     if getattr(pkg, "block", False):
@@ -334,6 +367,8 @@ def package_files(pkg, rng=None, expanded_p=0.25):
                 lines += def_yaml_block(d) + [""]
             if getattr(pkg, "comment_lines", False):
                 lines = comment_every_line([ln for ln in lines if ln.strip()], getattr(pkg, "comment_lines"))
+            if getattr(pkg, "detached_comments", None) is not None:
+                lines = detached_comment_blocks([ln for ln in lines if ln.strip()], getattr(pkg, "detached_comments"))
             return "\n".join(lines) + "\n"
         if pkg.files:
             return {f"m{i}.yml": render([d for d in pkg.defs if d["name"] in names]) for i, names in enumerate(pkg.files)}
